@@ -42,8 +42,14 @@ fn main() {
     if !t.is_transaction_active() {
         fails.push("a refused begin closed the open transaction".into());
     }
-    // rollback discards everything
+    // a refused begin leaves the open transaction's pending writes alone
     t.batch_set(&[vs("a", 1), azks(1), vs("b", 1)]);
+    let _ = t.begin_transaction();
+    if t.count() != 3 {
+        fails.push(format!("a refused begin_transaction changed the pending writes of the open transaction ({} of 3 left)", t.count()));
+        t.batch_set(&[vs("a", 1), azks(1), vs("b", 1)]);
+    }
+    // rollback discards everything
     if t.rollback_transaction().is_err() {
         fails.push("rollback of an open transaction returned Err".into());
     }
@@ -52,6 +58,23 @@ fn main() {
     }
     if t.is_transaction_active() {
         fails.push("transaction still open after rollback".into());
+    }
+    // rollback of a transaction that has not written anything still closes it
+    {
+        let t = Transaction::new();
+        t.begin_transaction();
+        if t.rollback_transaction().is_err() {
+            fails.push("rollback of an open transaction with an empty log returned Err".into());
+        }
+        if t.is_transaction_active() {
+            fails.push("a transaction with an empty log is still open after rollback".into());
+        }
+        let t = Transaction::new();
+        t.begin_transaction();
+        let _ = t.commit_transaction();
+        if t.is_transaction_active() {
+            fails.push("a transaction with an empty log is still open after commit".into());
+        }
     }
     // commit: every pending record exactly once, epoch record last, log emptied; several orders / sizes
     for n in [0usize, 1, 2, 5, 40] {
